@@ -27,6 +27,13 @@ theorem pool_defaults_tie :
     (GcpVerif.Pool.effective { min := 0, max := 0, wm := 0, fb := false, rr := false, uc := 0, ums := 0, methods := true }).max = defaultMaxSize.toNat ∧
     (GcpVerif.Pool.effective { min := 0, max := 0, wm := 0, fb := false, rr := false, uc := 0, ums := 0, methods := true }).wm = defaultMaxStreams.toNat := by decide
 
+/-- C12: every condition-variable wake-up of gcp_interceptor.go is sent right after a lock region has
+    ended (`…Unlock(); …Broadcast()`): a waiter is then either before its check — and will see the new
+    state or the finished context — or already inside `cond.Wait`, so the wake-up is not lost.  This is
+    what makes `broadcast` and `watcherFire` atomic steps of the stream model. -/
+theorem cond_broadcast_handshake :
+    condBroadcasts = condBroadcastsAfterUnlock ∧ 2 ≤ condBroadcasts := by decide
+
 theorem balancer_name : balancerName = "grpc_gcp" := by decide
 
 end GcpVerif.Ties
